@@ -143,9 +143,17 @@ pub(crate) fn format_extern(ext: ast::Extern, explicit_abi: bool) -> Cow<'static
             Cow::from("extern ")
         }
         ast::Extern::Explicit(abi, _) => {
-            // `symbol_unescaped` is the value of the literal: escape it again to spell it.
-            let abi = abi.symbol_unescaped.as_str().escape_default().to_string();
-            Cow::from(format!(r#"extern "{abi}" "#))
+            // `symbol_unescaped` is the value of the literal: to spell it, escape again what a
+            // string literal cannot hold as it is (and nothing else: `"système"` stays as written).
+            let mut lit = String::new();
+            for c in abi.symbol_unescaped.as_str().chars() {
+                if c == '"' || c == '\\' || c.is_ascii_control() {
+                    lit.extend(c.escape_default());
+                } else {
+                    lit.push(c);
+                }
+            }
+            Cow::from(format!(r#"extern "{lit}" "#))
         }
     }
 }
